@@ -591,6 +591,41 @@ func localNameEqualsForeignPackage(name string) *spec.Spec {
 	return b.s
 }
 
+// structOfSameNamedPackage: wire.Struct on a struct of items/store, which the
+// wire file imports under an alias, while the plain local name `store` means
+// users/store there (and a third orders/store exists). The constructor that
+// migrate writes must spell items/store's types with items/store's alias, not
+// with whatever `store` means in the source file.
+func structOfSameNamedPackage(name string) *spec.Spec {
+	b := newBuilder(name)
+	items := b.ext("items/store", "store", "itemsstore")
+	orders := b.ext("orders/store", "store", "ordersstore")
+	users := b.ext("users/store", "store", "")
+	cfg := b.typ(&spec.Type{Kind: spec.KStruct, Name: "Config", Pkg: items, Pure: true})
+	asm := &spec.Prov{ID: len(b.s.Provs), Kind: spec.PAssemble, AsmFields: []string{"*"}}
+	b.s.Provs = append(b.s.Provs, asm)
+	var provs []int
+	for i, n := range []string{"Router", "Clock", "Storage"} {
+		ft := b.nint(n, items)
+		v := uint64(11100 + i)
+		pv := &spec.Prov{ID: len(b.s.Provs), Kind: spec.PValue, ValExpr: fmt.Sprintf("%s(%d)", b.s.Expr(ft, ""), v), ValH: v, Results: []int{ft}}
+		b.s.Provs = append(b.s.Provs, pv)
+		provs = append(provs, pv.ID)
+		b.s.Types[cfg].Fields = append(b.s.Types[cfg].Fields, spec.Field{Name: fmt.Sprintf("E%dConfig", i), T: ft})
+		asm.Params = append(asm.Params, ft)
+	}
+	pcfg := b.ptr(cfg)
+	asm.Results = []int{pcfg}
+	pool := b.nstr("Pool", users)
+	repo := b.ptr(b.strct("OrderRepo", orders))
+	p1 := b.fn("NewOrderRepo", orders, nil, []int{repo}, false, false)
+	p2 := b.fn("NewPool", "", []int{pcfg, repo}, []int{pool}, false, true)
+	b.inject("InitializePool", pool, append(provs, asm.ID, p1, p2)...)
+	b.s.WireNoSets = true
+	b.s.Features = append(b.s.Features, "wire-struct-of-a-package-whose-name-means-another-package-in-the-wire-file")
+	return b.s
+}
+
 // injectorNameForms: declarations whose injector name cannot become a
 // package-level function: used twice in one file (0) or in two files of one
 // package (4), equal to a function the user wrote (1), a keyword (2), not an
@@ -652,7 +687,7 @@ func renamed(s *spec.Spec, name string) *spec.Spec {
 func corpusSpecs(prop string) []*spec.Spec {
 	switch prop {
 	case "C13":
-		return []*spec.Spec{twinConfigs("k13a", false), twinConfigs("k13b", true), sameNamedPackages("k13c")}
+		return []*spec.Spec{twinConfigs("k13a", false), twinConfigs("k13b", true), sameNamedPackages("k13c"), structOfSameNamedPackage("k13s")}
 	case "C14":
 		h := sameNamedPackages("k14h")
 		// an input-free provider in the main package for the local helper to wrap
@@ -664,7 +699,7 @@ func corpusSpecs(prop string) []*spec.Spec {
 		h.Injectors[0].Items = append(h.Injectors[0].Items, spec.Item{Prov: pl})
 		h.WireLocalHelper = true
 		h.Features = append(h.Features, "provider-declared-in-the-wire-file")
-		return []*spec.Spec{twinConfigs("k14a", false), twinConfigs("k14b", true), sameNamedPackages("k14c"), h, sameLocalNameInTwoWireFiles("k14v"), localNameEqualsForeignPackage("k14n")}
+		return []*spec.Spec{twinConfigs("k14a", false), twinConfigs("k14b", true), sameNamedPackages("k14c"), h, sameLocalNameInTwoWireFiles("k14v"), localNameEqualsForeignPackage("k14n"), structOfSameNamedPackage("k14s")}
 	case "C04", "C12":
 		var fs []*spec.Spec
 		for k := 0; k < 4; k++ {
